@@ -23,7 +23,8 @@ def main(nq, ne, maxlen, out):
             rows.append({'t': 'chan', 'a': list(a), 'b': list(b), 'eq': bool(A == B), 'eq_rev': bool(B == A),
                          'ne': bool(A != B), 'in_list': bool(A in [mk((nq + 7, 'ALL')), B])})
     # qubit names of which some are substrings of others (D1 / D10 / D11, Z1 / Z10): identity is the whole name
-    names = (['D1', 'Z1', 'D10', 'Z10', 'D11', 'Z11', 'D2', 'X1', 'X10'] + ['Q%d' % i for i in range(ne)])[:ne]
+    # ... and names that differ only in leading zeros of an embedded number (D1 / D01): still different qubits
+    names = (['D1', 'Z1', 'D10', 'D01', 'Z10', 'Z01', 'D11', 'D2', 'X1', 'X10'] + ['Q%d' % i for i in range(ne)])[:ne]
     edges = [(x, y) for x in range(ne) for y in range(ne) if x != y]
 
     def mke(e):
